@@ -618,7 +618,10 @@ def kw_wsegvalv(draw, m):
 @st.composite
 def kw_network(draw, m):
     groups = sorted(g for g in m.groups if g != "FIELD" and m.groups[g] == "FIELD")[:2]
-    txt = "BRANPROP\n" + "".join(" '%s' 'FIELD' %s /\n" % (g, draw(st.sampled_from(["9999", "9999"]))) for g in groups) + "/\n"
+    if draw(st.integers(0, 3)) == 0:
+        # branches taken out again (VFP table number 0), also ones that were never defined, also as the very first record
+        return "BRANPROP\n" + "".join(" '%s' 'FIELD' 0 /\n" % g for g in groups) + "/\n"
+    txt = "BRANPROP\n" + "".join(" '%s' 'FIELD' %s /\n" % (g, draw(st.sampled_from(["9999", "9999", "9999", "0"]))) for g in groups) + "/\n"
     txt += "NODEPROP\n 'FIELD' %s /\n" % fnum(draw(press))
     for g in groups:
         choke = draw(st.sampled_from(["NO", "NO", "YES"]))
